@@ -54,7 +54,7 @@ Ev == Traces[tid][l]
 IsEvent(name) == l <= Len(Traces[tid]) /\ Ev.ev = name /\ l' = l + 1 /\ UNCHANGED tid
 
 TInit == /\ tid \in 1..N /\ l = 1
-         /\ opt = [compress |-> FALSE, limit |-> [w \in Who |-> 0], mask |-> [w \in Who |-> w = "C"], dlimit |-> [w \in Who |-> 0]]
+         /\ opt = [compress |-> FALSE, limit |-> [w \in Who |-> 0], mask |-> [w \in Who |-> w = "C"], dlimit |-> [w \in Who |-> 0], closer |-> ""]
          /\ acc = [w \in Who |-> <<>>] /\ wfs = [w \in Who |-> Ground]
          /\ wdone = [w \in Who |-> 0] /\ wsum = [w \in Who |-> 0] /\ dl = [w \in Who |-> 0]
          /\ krun = [w \in Who |-> [key |-> <<>>, n |-> 0, bad |-> FALSE]]
@@ -63,7 +63,8 @@ TInit == /\ tid \in 1..N /\ l = 1
 
 TOpen == /\ IsEvent("open") /\ l = 1
          /\ opt' = [compress |-> Ev.compress, limit |-> [w \in Who |-> Ev.limit[w]], mask |-> [w \in Who |-> Ev.mask[w]],
-                    dlimit |-> [w \in Who |-> Ev.dlimit[w]]]   \* decompression size limit of receiver w (0 = none)
+                    dlimit |-> [w \in Who |-> Ev.dlimit[w]],   \* decompression size limit of receiver w (0 = none)
+                    closer |-> Ev.closer]   \* "" or the end that will finish the scenario with sendClose() right behind queued sends
          /\ UNCHANGED <<acc, wfs, wdone, wsum, dl, krun, poison, overd, failed1009, wnf, wcounts>>
 
 \* ---- send API: accepted unless over the sender's message limit (sendMessage only); nothing else may be raised
@@ -166,6 +167,14 @@ TClosedLimit == /\ IsEvent("closed") /\ Ev.code = 1009
                 /\ \E w \in Who : overd[w] /\ failed1009' = [failed1009 EXCEPT ![w] = TRUE]
                 /\ UNCHANGED <<opt, acc, wfs, wdone, wsum, dl, krun, poison, overd, wnf, wcounts>>
 
+\* The scenario ends with a closing handshake: the closer calls sendClose() while messages it sent before still wait in its
+\* send queue.  Both ends are then told of a clean close - and TEnd still demands that everything accepted was written and
+\* delivered (the close frame is queued behind the data, and a closing connection keeps writing its queue).
+TLClose == /\ IsEvent("lclose") /\ Ev.who = opt.closer
+           /\ UNCHANGED <<opt, acc, wfs, wdone, wsum, dl, krun, poison, overd, failed1009, wnf, wcounts>>
+TClosedClean == /\ IsEvent("closed") /\ opt.closer # "" /\ Ev.clean /\ Ev.code \in {0, 1000}     \* (0: the close frame carried no code)
+                /\ UNCHANGED <<opt, acc, wfs, wdone, wsum, dl, krun, poison, overd, failed1009, wnf, wcounts>>
+
 TEnd == /\ IsEvent("end")
         \* (a connection lost to a recorded deviation or failed with 1009 ends with unsent / undelivered messages)
         /\ \/ DevF16("C") \/ DevF16("S") \/ failed1009["C"] \/ failed1009["S"]
@@ -183,7 +192,7 @@ TDevDeliver == /\ IsEvent("deliver") /\ DevF16(Other(Ev.to)) /\ ~Ev.same
                /\ dl' = [dl EXCEPT ![Other(Ev.to)] = IF @ < wdone[Other(Ev.to)] THEN @ + 1 ELSE @]
                /\ UNCHANGED <<opt, acc, wfs, wdone, wsum, krun, poison, overd, failed1009, wnf, wcounts>>
 
-TNext == (TOpen \/ TSend \/ TWire \/ TDeliver \/ TEnd \/ TClosedLimit \/ TDevEscape \/ TDevClosed \/ TDevDeliver \/ TDevSend) /\ UNCHANGED vars
+TNext == (TLClose \/ TClosedClean \/ TOpen \/ TSend \/ TWire \/ TDeliver \/ TEnd \/ TClosedLimit \/ TDevEscape \/ TDevClosed \/ TDevDeliver \/ TDevSend) /\ UNCHANGED vars
 TraceSpec == TInit /\ Init /\ [][TNext]_<<tvars, vars>>
 
 Progress == TLCSet(tid, IF TLCGet(tid) < l THEN l ELSE TLCGet(tid))
